@@ -204,6 +204,10 @@ class C13(GProp):
                         fails.append((None, '%s unexpected-token error names %s but its token span %s is %s' % (how, found, d['ts'][0],
                                                                                                               'the span of ' + t['tok'] if t else 'not a token')))
                         continue
+                    # "the first token the parser could not accept": a found token the leaf would have accepted cannot be it
+                    ex = d['exp'][0]
+                    if isinstance(ex, list) and ex and ex[0] in ('tok', 'any') and found in ex[1:]:
+                        fails.append((None, '%s unexpected-token error names %s as found although it expects %s' % (how, found, sexp.dump(ex))))
                     if es[1][0] > ts[0][0]:
                         fails.append((None, '%s unexpected-token error: parse-so-far span %s ends after the found token %s begins' % (how, d['es'][0], d['ts'][0])))
                     known, fl = filter_at(d['exp'][0])
